@@ -146,6 +146,7 @@ package executors
 //@   ghost at after addAndCheck#0: w1 = wg(pe.waitGroup)
 //@   call send#0: assert full && arg_sent == batch && wg(pe.waitGroup) == w1 + 1
 //@   ensures_local implies(full, wg(pe.waitGroup) == w1 + 1)
+//@   ensures ctAdds == old(ctAdds) + 1
 
 // the flusher goroutine: every received batch goes to executeTasks exactly once (which releases the registration its
 // producer made); the flusher itself registers nothing for a handed-over batch
@@ -161,11 +162,13 @@ package executors
 //@   loop 0: invariant pe.container != nil
 
 // the bulk and chunk executors are thin wrappers: Add / Flush / Wait are the periodical executor's Add / Flush / Wait (in
-// particular Wait is Wait - it also covers batches already handed to the flusher - not merely a Flush)
+// particular Wait is Wait - it also covers batches already handed to the flusher - not merely a Flush; every Add reaches the
+// container exactly once whatever the task or its declared size)
 //@ func (ce *ChunkExecutor) Add
 //@   property C11
 //@   requires ce.executor != nil && ce.executor.container != nil
-//@   call Add#0: assert arg_recv == ce.executor
+//@   call Add#0: assert arg_recv == ce.executor && arg_task.(chunk).val == task && arg_task.(chunk).size == size
+//@   ensures ctAdds == old(ctAdds) + 1
 //@ func (ce *ChunkExecutor) Flush
 //@   property C11
 //@   requires ce.executor != nil && ce.executor.container != nil
@@ -178,6 +181,7 @@ package executors
 //@   property C11
 //@   requires be.executor != nil && be.executor.container != nil
 //@   call Add#0: assert arg_recv == be.executor && arg_task == task
+//@   ensures ctAdds == old(ctAdds) + 1
 //@ func (be *BulkExecutor) Flush
 //@   property C11
 //@   requires be.executor != nil && be.executor.container != nil
